@@ -186,7 +186,7 @@ CLAIMED['C05'] = {
              'category probabilities telescope to 1 and lie in [0,1] (logistic cdf proved monotone with range [0,1]; normal cdf by hypothesis). The Gallina builders '
              '(incl. a model of Python double arithmetic on numeric parameters and of Nests.__init__/check_partition/check_validity/from_tuple) are compared node for '
              'node with the trees /repo builds in both nest syntaxes (stream build); engine values of all alternatives are checked against the property directly and '
-             'against proved interval enclosures (stream prob_values); stream build also demands that a nest repeating an alternative (first / middle / last position, 7 nested builders, both syntaxes) is refused with BiogemeError. PARTIAL: alpha = 0 entries and 0**x are outside the reference semantics (sampled only).'),
+             'against proved interval enclosures (stream prob_values); stream build also demands that a nest repeating an alternative (first / middle / last position, 7 nested builders, both syntaxes) is refused with BiogemeError. PARTIAL: alpha = 0 entries and 0**x are outside the reference semantics (sampled only). Also for the MEV model with endogenous-sampling correction (logmev / mev_endogenous_sampling: distribution proved for arbitrary ln G_i and corrections, equal corrections = MEV; T05d_mev_es_*, T05h_mev_es_is_exp_of_log); stream build covers these entry points including repeated calls with the same dictionaries; stream prob_values obtains each distribution by one call per alternative with the same caller dictionaries (which must come back unmodified), also through the pure-Python evaluator get_value() on variable-free trees with numeric availabilities, and demands agreement with the engine. The Python path of cnl runs with positive alphas only: with alpha = 0 and an Expression nest parameter the Python evaluator computes 0.0 ** negative = inf and 0 * inf = nan (a power of 0, outside the regular domain; the engine returns the right value).'),
     'note': KERNEL + 'evalX as reference semantics; the expression bridge; the hand-written builders up to the sampled correspondence; cythonbiogeme numerics only sampled; '
             'Phi is a Section variable with monotonicity/range hypotheses.',
 }
